@@ -187,11 +187,16 @@ pub fn gen_c01(thorough: bool, seed: u64) -> Vec<Episode> {
                 }
                 eps.push(Episode { n, tys: tys_for(n), ops });
             }
-            // an operand combined with itself
+            // an operand combined with itself: the very same object for the borrowing forms
+            // (named, ref_ref), clones for the others
             let mut ops = vec![load(0, n, &a)];
-            logic_op("xor", "ref_ref", 0, 0, 2, &mut ops);
+            for g in ["and", "or", "xor"] {
+                logic_op(g, "ref_ref", 0, 0, 2, &mut ops);
+                logic_op(g, "named", 0, 0, 3, &mut ops);
+            }
             logic_op("and", "assign_ref", 0, 0, 3, &mut ops);
             logic_op("or", "val_val", 0, 0, 4, &mut ops);
+            logic_op("xor", "assign_val", 0, 0, 4, &mut ops);
             eps.push(Episode { n, tys: tys_for(n), ops });
         }
     }
@@ -681,7 +686,8 @@ pub fn gen_c08(thorough: bool, seed: u64) -> Vec<Episode> {
     for n in 0..=max_it {
         let total: usize = 1usize << (1usize << n);
         let mut ops = vec![json!({"op": "iter_start", "n": n})];
-        for _ in 0..total + 3 {
+        // every item, then one more call: the iterator must have terminated
+        for _ in 0..total + 1 {
             ops.push(json!({"op": "iter_next", "d": 0}));
         }
         eps.push(Episode { n, tys: "both", ops });
@@ -835,6 +841,58 @@ pub fn gen_c09(thorough: bool, seed: u64) -> Vec<Episode> {
         for chunk in muts.chunks(20) {
             let ops: Vec<Value> = chunk.iter().map(|s| from_hex(0, n, s)).collect();
             eps.push(Episode { n, tys: tys_for(n), ops });
+        }
+    }
+    // multi-byte characters: every 2-byte UTF-8 character as the whole string for n = 3 (width 2),
+    // and 2/3/4-byte characters mixed with digits for larger widths (a decoder that masks or
+    // truncates bytes may map them onto hex digits)
+    {
+        let mut strs: Vec<(usize, Vec<u8>)> = Vec::new();
+        for lead in 0xc2u8..=0xdf {
+            for cont in 0x80u8..=0xbf {
+                strs.push((3, vec![lead, cont]));
+            }
+        }
+        for lead in 0xc2u8..=0xdf {
+            for cont in [0x80u8, 0xb0, 0xb6, 0xb9, 0xa1, 0xbf] {
+                strs.push((4, vec![b'1', lead, cont, b'f']));
+            }
+        }
+        // 3-byte (E1..EC lead) and 4-byte (F1..F3 lead) characters: always valid with 80..BF continuations
+        for lead in 0xe1u8..=0xec {
+            for c1 in [0x80u8, 0xb0, 0xb5, 0xb9, 0xbf] {
+                for c2 in [0x80u8, 0xb1, 0xb9] {
+                    strs.push((4, vec![lead, c1, c2, b'0']));
+                    strs.push((5, vec![b'0', b'1', lead, c1, c2, b'a', b'b', b'c']));
+                }
+            }
+        }
+        for lead in 0xf1u8..=0xf3 {
+            for c in [0x80u8, 0xb0, 0xb9] {
+                strs.push((4, vec![lead, c, 0xb1, 0xb2]));
+                strs.push((5, vec![b'7', b'7', lead, 0xb3, c, 0xb4, b'7', b'7']));
+            }
+        }
+        for n in [3usize, 4, 5] {
+            let of_n: Vec<&Vec<u8>> = strs.iter().filter(|(m, _)| *m == n).map(|(_, s)| s).collect();
+            for chunk in of_n.chunks(80) {
+                let ops: Vec<Value> = chunk.iter().map(|s| from_hex(0, n, s)).collect();
+                eps.push(Episode { n, tys: "both", ops });
+            }
+        }
+        // aliasing characters inside multi-word strings, at and around a chunk boundary
+        for n in [7usize, 8] {
+            let base = hex_bytes(n, &random_on(n, &mut r));
+            let mut ops = Vec::new();
+            for pos in [0usize, 14, 15, 16, 30] {
+                for (l, c) in [(0xc3u8, 0xb6u8), (0xc2, 0xb0), (0xc5, 0xb9), (0xc3, 0xa9)] {
+                    let mut s = base.clone();
+                    s[pos] = l;
+                    s[pos + 1] = c;
+                    ops.push(from_hex(0, n, &s));
+                }
+            }
+            eps.push(Episode { n, tys: "both", ops });
         }
     }
     // exhaustive over an alphabet, n <= 3, all lengths up to width + 1
@@ -1071,6 +1129,19 @@ pub fn gen_c02(thorough: bool, seed: u64) -> Vec<Episode> {
             let ops = history(n, &mut r, &cfg);
             eps.push(Episode { n, tys: tys_for(n), ops });
         }
+        // conversions Lut -> LutM -> Lut for every static size M (an Err is fine; an Ok must be well-formed)
+        for t in [(0..dom(n)).collect::<Vec<usize>>(), random_on(n, &mut r), vec![dom(n) - 1]] {
+            for m in 0..=12usize {
+                if !thorough && m > 7 && n > 7 && (m + n) % 3 != 0 {
+                    continue;
+                }
+                let mut ops = vec![load(0, n, &t), json!({"op": "conv_try", "a": 0, "d": 1, "n": m})];
+                if m == n {
+                    ops.extend([rel(1, 0, "eq"), json!({"op": "reload", "a": 1, "d": 7}), rel(1, 7, "eq"), rel(1, 7, "hasheq")]);
+                }
+                eps.push(Episode { n, tys: "lut", ops });
+            }
+        }
     }
     eps
 }
@@ -1284,9 +1355,12 @@ pub fn gen_c10a(thorough: bool, seed: u64) -> Vec<Episode> {
         for op in ["zero", "one", "parity", "majority"] {
             ops.push(json!({"op": op, "d": 2, "n": n}));
         }
-        for k in 0..=n + 1 {
+        for k in (0..=n + 2).chain([63usize, 64, 65, 64 + n, 127, 128, 1usize << 32, (1usize << 32) + 1, usize::MAX - 1, usize::MAX]) {
             ops.push(ctor_k("threshold", 2, n, k));
             ops.push(ctor_k("equals", 3, n, k));
+        }
+        for c in [0u64, 1, 0xaaaa_aaaa_aaaa_aaaa, !0u64, r.gen::<u64>(), 1u64 << 63, (1u64 << (n + 1)) - 1] {
+            ops.push(json!({"op": "symmetric", "d": 2, "n": n, "cb": crate::exec::bits_of(c), "c_s": c.to_string()}));
         }
         ops.push(json!({"op": "iter_start", "n": n}));
         for _ in 0..6 {
@@ -1414,9 +1488,9 @@ pub fn gen_canon(thorough: bool, seed: u64, c05: bool) -> Vec<Episode> {
             match n {
                 4 => (300, 300, 300),
                 5 => (scale(60, 600), scale(100, 600), scale(200, 600)),
-                6 => (scale(6, 40), scale(40, 300), scale(100, 400)),
-                7 => (scale(1, 4), scale(3, 20), scale(30, 200)),
-                _ => (scale(0, 1), scale(1, 3), scale(12, 60)),
+                6 => (scale(12, 60), scale(60, 300), scale(100, 400)),
+                7 => (scale(8, 30), scale(40, 200), scale(40, 200)),
+                _ => (scale(4, 12), scale(24, 100), scale(24, 100)),
             }
         } else {
             match n {
@@ -1429,11 +1503,37 @@ pub fn gen_canon(thorough: bool, seed: u64, c05: bool) -> Vec<Episode> {
         };
         for (kind, cnt) in [("npn", c_npn), ("p", c_p), ("n", c_n)] {
             for k in 0..cnt {
-                let f = match k % 4 {
+                let f = match k % 8 {
                     0 => random_on(n, &mut r),
                     1 => symmetric_like(n, &mut r),
                     2 => tables[r.gen_range(0..tables.len())].clone(),
-                    _ => sparse_on(n, &mut r, 1 + k % 5),
+                    3 => sparse_on(n, &mut r, 1 + k % 5),
+                    // a function of fewer variables padded with dummy variables (upper words repeat or vanish)
+                    4 => {
+                        let m = r.gen_range(1..n);
+                        let g = random_on(m, &mut r);
+                        on_from_fn(n, |x| g.binary_search(&(x & (dom(m) - 1))).is_ok())
+                    }
+                    // !x_top & g, x_top & g: all the action in one half of the table
+                    5 => {
+                        let g = random_on(n - 1, &mut r);
+                        let hi = k % 16 < 8;
+                        on_from_fn(n, |x| ((x >> (n - 1)) & 1 == 1) == hi && g.binary_search(&(x & (dom(n - 1) - 1))).is_ok())
+                    }
+                    // a literal pair x_i & !x_j, or a two-variable function, embedded in n variables
+                    6 => {
+                        let i = r.gen_range(0..n);
+                        let j = (i + 1 + r.gen_range(0..n - 1)) % n;
+                        on_from_fn(n, |x| (x >> i) & 1 == 1 && (x >> j) & 1 == 0)
+                    }
+                    // x_top ? (AND of the others) : g
+                    _ => {
+                        let g = random_on(n - 1, &mut r);
+                        on_from_fn(n, |x| {
+                            let low = x & (dom(n - 1) - 1);
+                            if (x >> (n - 1)) & 1 == 1 { low == dom(n - 1) - 1 } else { g.binary_search(&low).is_ok() }
+                        })
+                    }
                 };
                 let heavy = kind == "npn" && n >= 6;
                 eps.push(canon_episode(n, &f, &[kind], !heavy, c05 || (k % 8 == 0 && n <= 5)));
